@@ -63,6 +63,11 @@ Qed.
 (* ------------------------------------------------------------------ rational roots *)
 Fixpoint qpown (q : Q) (k : nat) : Q := match k with O => 1 | S j => q * qpown q j end.
 
+Global Instance qpown_proper : Proper (Qeq ==> eq ==> Qeq) qpown.
+Proof.
+  intros a b Hab k k' <-. induction k; cbn [qpown]; [reflexivity|]. apply Qmult_comp; assumption.
+Qed.
+
 Lemma pC_pow q k : ppow_s (pC q) k =p pC (qpown q k).
 Proof. induction k; cbn [ppow_s qpown]; [reflexivity|]. rewrite IHk, pC_mulC. reflexivity. Qed.
 
@@ -244,7 +249,7 @@ Proof.
   destruct (invert_spec R prec WR R0n (proj2 Hp)) as (iv & Ei & Wi & Hi).
   rewrite Ei. cbn [bind].
   exists (pmul_q iv c). split; [reflexivity|]. split; [apply wf_pmul_q; exact Wi|].
-  set (k := Pos.to_nat np).
+  set (k := Pos.to_nat np). fold k in HR.
   rewrite (den_pmul_q iv c (proj2 Wi)). rewrite <- pC_mul.
   rewrite ppow_s_mul_base, pC_pow.
   assert (Hq' := qroot_ok v np c Hq). fold k in Hq'. rewrite Hq'.
@@ -284,7 +289,7 @@ Proof.
   destruct (Z.ltb_spec (Zneg np) 0); [|lia].
   unfold pdiv_q. assert (Hcz : qis0 c = false) by (apply qis0_false; exact Hc0). rewrite Hcz.
   eexists. split; [reflexivity|]. split; [apply wf_pmul_full; [exact WR|apply wf_pconst]|].
-  set (k := Pos.to_nat np).
+  set (k := Pos.to_nat np). fold k in HR.
   rewrite den_pmul_full; [|apply WR|apply wf_pconst]. rewrite den_pconst, qinv_ok.
   rewrite ppow_s_mul_base, pC_pow.
   set (sn := pmul_full s (pconst (qinv v))) in *.
